@@ -303,3 +303,4 @@ V("C12", "island_search_unbounded", "violation", (SYSTEM, "            if starti
 V("C15", "unpack_keeps_stale_dataframes", "violation", (DAEF, "            for name in ('df_x', 'df_y', 'df_z', 'df_xy', 'df_xyz'):\n                self.__dict__.pop(name, None)\n", "            pass\n"), rule="C15.fresh")
 V("C15", "npz_first_chunk_from_cached_view", "violation", (DAEF, "                # `txyz` is unpacked automatically on its first access only\n                self.ts.unpack()\n", ""), rule="C15.fresh")
 V("C15", "csv_header_body_different_lists", "violation", ("andes/plot.py", "        body = self.get_values(idx)\n", "        idx = sorted(idx)\n        body = self.get_values(idx)\n"), rule="C15.fresh")
+V("C20", "alt_enumeration_as_string", "violation", ("andes/models/static/pq.py", "                              pq2z=(0, 1),", "                              pq2z=\"(0, 1)\","), rule="C20.alternatives")
